@@ -555,7 +555,7 @@ def lib_history(rng, n):
 def gen_cases(rng, tier):
     cases = []
     quick = tier == "quick"
-    n_prog = 300 if quick else 5000
+    n_prog = 500 if quick else 5000
     hmax = 12 if quick else 40
     seeds = 2 if quick else 3
     for i in range(n_prog):
